@@ -1,0 +1,43 @@
+//go:build verif
+
+// Contracts for the verif build tag: //@ comment blocks read by /verif/gocv.
+// The name predicates of this package are used by contracts of merger, executor and planner;
+// they are proved here against their bodies instead of being assumed at every use.
+
+package common
+
+//@ func IsBuiltinName
+//@ props C03 C04 C05
+//@ ensures result == hasprefix(s, "__")
+//@ modifies fresh
+//@ end
+
+//@ func IsNodeInterfaceName
+//@ props C03 C04 C05
+//@ ensures result == (s == "Node")
+//@ modifies fresh
+//@ end
+
+//@ func IsQueryObjectName
+//@ props C03 C05 C06 C09 C12 C01
+//@ ensures result == (s == "Query")
+//@ modifies fresh
+//@ end
+
+//@ func IsMutationObjectName
+//@ props C06 C09 C12 C01
+//@ ensures result == (s == "Mutation")
+//@ modifies fresh
+//@ end
+
+//@ func IsSubscriptionObjectName
+//@ props C06 C09 C12 C01
+//@ ensures result == (s == "Subscription")
+//@ modifies fresh
+//@ end
+
+//@ func IsRootObjectName
+//@ props C06 C09 C12 C01
+//@ ensures result == (s == "Query" || s == "Mutation" || s == "Subscription")
+//@ modifies fresh
+//@ end
